@@ -30,6 +30,8 @@ pub enum Op {
     Inject(usize, i32),
     /// sleep past the 500 ms back-off
     Wait,
+    /// (saturating variant) close the held connection: the only worker drops below its limit of 1
+    Release,
 }
 
 fn per_connection(errno: i32) -> bool {
@@ -43,6 +45,9 @@ pub struct Scn {
     pub rt: RtKind,
     pub ops: Vec<Op>,
     pub failpoints: bool,
+    /// one worker with `max_concurrent_connections(1)` whose only slot is taken by a held connection before the ops
+    /// start: connections queue up in the backlog until `Release`
+    pub saturate: bool,
 }
 
 /// Enumerated grammar: listener kind {TCP, UDS} x failpoints {off, on} x every op sequence of length 1..4 over
@@ -80,6 +85,7 @@ impl Scn {
             rt: if index % 3 == 0 { RtKind::Tokio } else { RtKind::Actix },
             ops,
             failpoints: variant / 2 == 1,
+            saturate: false,
         }
     }
 }
@@ -93,6 +99,29 @@ impl Scn {
             return Scn::enumerated(seed);
         }
         let mut r = Rng::new(seed);
+        if r.chance(1, 6) {
+            // saturating variant: [pause | connect]* release [connect | resume | pause]*
+            let mut ops = Vec::new();
+            for _ in 0..1 + r.usize(3) {
+                ops.push(if r.chance(1, 2) { Op::Pause } else { Op::Connect(0) });
+            }
+            ops.push(Op::Release);
+            for _ in 0..r.usize(3) {
+                ops.push(match r.usize(3) {
+                    0 => Op::Pause,
+                    1 => Op::Resume,
+                    _ => Op::Connect(0),
+                });
+            }
+            return Scn {
+                seed,
+                listeners: vec![if r.chance(1, 3) { LKind::Uds } else { LKind::Tcp }],
+                rt: if r.chance(1, 3) { RtKind::Tokio } else { RtKind::Actix },
+                ops,
+                failpoints: r.chance(1, 2),
+                saturate: true,
+            };
+        }
         let listeners = match r.usize(3) {
             0 => vec![LKind::Tcp],
             1 => vec![LKind::Uds],
@@ -125,10 +154,11 @@ impl Scn {
             rt: if r.chance(1, 3) { RtKind::Tokio } else { RtKind::Actix },
             ops,
             failpoints: r.chance(1, 2),
+            saturate: false,
         }
     }
     pub fn shape(&self) -> String {
-        format!("{:?} {:?} {:?} f{}", self.listeners, self.rt, self.ops, self.failpoints as u8)
+        format!("{:?} {:?} {:?} f{}{}", self.listeners, self.rt, self.ops, self.failpoints as u8, if self.saturate { " saturated" } else { "" })
     }
     pub fn to_json(&self) -> Value {
         json!({"case_seed": self.seed, "shape": self.shape()})
@@ -151,6 +181,9 @@ pub struct Seen {
     pub uds_connects: u64,
     pub tcp_connects: u64,
     pub errors_while_paused: u64,
+    pub busy_waits: u64,
+    pub releases_while_paused: u64,
+    pub saturating_scenarios: u64,
 }
 
 pub enum Outcome {
@@ -198,7 +231,11 @@ pub fn run_scenario(scn: &Scn, seen: &mut Seen) -> Outcome {
         verif::set_failpoints(&[], 0);
     }
     verif::start_recording();
-    let cfg = ServerCfg { workers: 2, limit: 64, listeners: scn.listeners.clone(), rt: scn.rt, shutdown_timeout: 1, backlog: 128 };
+    let cfg = if scn.saturate {
+        ServerCfg { workers: 1, limit: 1, listeners: scn.listeners.clone(), rt: scn.rt, shutdown_timeout: 1, backlog: 128 }
+    } else {
+        ServerCfg { workers: 2, limit: 64, listeners: scn.listeners.clone(), rt: scn.rt, shutdown_timeout: 1, backlog: 128 }
+    };
     let mut run = match engine::start(&cfg, |_| {}) {
         Ok(r) => r,
         Err(e) => return Outcome::Inconclusive(e),
@@ -213,8 +250,32 @@ pub fn run_scenario(scn: &Scn, seen: &mut Seen) -> Outcome {
     let mut clients: Vec<PendingClient> = Vec::new();
     let mut inconclusive: Option<String> = None;
 
+    // saturating variant: the only slot of the only worker is taken before the ops start
+    let mut holder: Option<Client> = None;
+    if scn.saturate {
+        seen.saturating_scenarios += 1;
+        match Client::connect(&run.addrs[0], 0, b'H') {
+            Ok(mut c) => {
+                let t0 = Instant::now();
+                while c.poll_ack(Duration::from_millis(20)) == Ack::NotYet && t0.elapsed() < Duration::from_secs(5) {}
+                if !c.served {
+                    inconclusive = Some("holder connection not served".into());
+                }
+                holder = Some(c);
+            }
+            Err(e) => inconclusive = Some(format!("holder connect: {e}")),
+        }
+        let _ = run.barrier(false);
+    }
+
     let mut ops: Vec<Op> = scn.ops.clone();
+    if inconclusive.is_some() {
+        ops.clear();
+    }
     // epilogue: bring the server back to normal and require everything to be served
+    if holder.is_some() && !ops.contains(&Op::Release) {
+        ops.push(Op::Release);
+    }
     ops.push(Op::Resume);
     ops.push(Op::Wait);
 
@@ -286,7 +347,29 @@ pub fn run_scenario(scn: &Scn, seen: &mut Seen) -> Outcome {
                 }
             }
             Op::Wait => {
-                thread::sleep(Duration::from_millis(if epilogue { 700 } else { 650 }));
+                if !epilogue && (scn.seed ^ step as u64) % 2 == 1 {
+                    // a busy back-off: the accept loop keeps being woken (a no-op command every 100 ms) while the
+                    // deadline passes; the listener must be re-armed by the wake-up that follows the deadline
+                    seen.busy_waits += 1;
+                    for _ in 0..7 {
+                        thread::sleep(Duration::from_millis(100));
+                        let _ = run.accept_barrier(paused);
+                    }
+                } else {
+                    thread::sleep(Duration::from_millis(if epilogue { 700 } else { 650 }));
+                }
+            }
+            Op::Release => {
+                if let Some(c) = holder.take() {
+                    if paused {
+                        seen.releases_while_paused += 1;
+                    }
+                    let cid = c.cid;
+                    c.close();
+                    // the release is complete when the worker's guard has been dropped and its notification handled
+                    let _ = engine::wait_log(|l| l.iter().any(|r| matches!(&r.ev, Ev::User { kind: "end", a, .. } if *a == cid)), engine::WATCHDOG);
+                    let _ = run.guard_barrier();
+                }
             }
         }
 
@@ -433,8 +516,8 @@ pub fn run_scenario(scn: &Scn, seen: &mut Seen) -> Outcome {
                 }
             }
         }
-        // pending clients of armed listeners are served
-        if !snap.paused {
+        // pending clients of armed listeners are served (unless the only slot is still held)
+        if !snap.paused && holder.is_none() {
             for (l, _) in scn.listeners.iter().enumerate() {
                 let backoff = snap.listeners.iter().find(|(t, _)| *t == l).map(|x| x.1).unwrap_or(false);
                 if backoff || !injected_pending[l].is_empty() {
